@@ -8,6 +8,8 @@ pub fn kind_code(kind: &str) -> i64 {
     match kind {
         "load" => 0, "store" => 1, "faa" => 2, "cas" => 3, "swap" => 4, "fas" => 5,
         "slot_write" => 6, "slot_read" => 7, "fence" => 9,
+        "wake" => 10, "parked" => 11, "wakers_read" => 12, "wakers_write" => 13, "keep_read" => 14, "keep_write" => 15,
+        "used_read" => 16, "used_write" => 17,
         _ => 8,
     }
 }
@@ -81,7 +83,7 @@ pub fn flush_log(out: &mut Vec<i64>, locs: &LocMap) {
 
 /// lets every worker run to its end; workers that cannot finish within `patience_ms` are aborted (they unwind)
 pub fn wind_down(handles: Vec<std::thread::JoinHandle<()>>, patience_ms: u64) -> bool {
-    verif::deactivate();
+    if patience_ms == 0 { verif::abort_all(); } else { verif::deactivate(); }
     let deadline = std::time::Instant::now() + std::time::Duration::from_millis(patience_ms);
     let mut all = true;
     let mut aborted = false;
